@@ -91,7 +91,7 @@ Denote(t, tok) ==
       [] t = "bytestext"            -> ListDenote(tok)
       [] t = "durtext"              -> IF tok = <<>> THEN None ELSE DurDenote(tok)
       [] OTHER -> None
-  ELSE IF tok = NullT THEN Same
+  ELSE IF tok = NullT \/ tok = <<>> THEN Same      \* nothing to decode: fail, leave alone or zero
   ELSE IF tok \in {TrueT, FalseT} THEN None
   ELSE IF Quoted(tok) THEN
          LET c == StrContent(Inner(tok)) IN          \* escapes stand for the characters they name
@@ -123,10 +123,12 @@ NativeKind(t, kind) ==
   CASE t = "b64"                        -> kind \in {"bytes", "string"}
     [] t \in {"scannano", "scanunix"}   -> kind = "int64"
     [] t \in {"sqlstamp", "sqltime"}    -> kind = "time"
+    [] t = "durtext"                    -> kind = "string"
     [] OTHER                            -> FALSE
 ScanDenote(t, kind, tok) ==
   IF kind = "nil" THEN Same
-  ELSE IF kind = "bool" THEN None
+  ELSE IF kind \in {"bool", "other"} THEN None     \* other: any further dynamic kind of interface{}
+  ELSE IF t = "durtext" /\ kind = "string" THEN (IF tok = <<>> THEN None ELSE DurDenote(tok))
   ELSE IF t = "b64" THEN (IF kind \in {"bytes", "string"} THEN B64Denote(tok) ELSE None)
   ELSE NumDenote(tok)
 ScanOK(t, kind, tok, prev, out, v) ==
